@@ -28,13 +28,16 @@ Record tables := {
   t_algs : list (str * str);                     (* SIGNER_ALGS: uri -> digest of the shared signer *)
   t_allowed : list str;                          (* SIG_ALLOWED_ALG uris *)
   t_sign_tilde : bool;                           (* pack.urlencode leaves the tilde alone *)
-  t_verify_tilde : bool                          (* sigver.urlencode leaves the tilde alone *)
+  t_verify_tilde : bool;                         (* sigver.urlencode leaves the tilde alone *)
+  t_shared : bool                                (* get_signer hands out the module-level object itself and stores
+                                                    the caller's key on it (true) / a fresh RSASigner per call (false) *)
 }.
 Definition actual : tables := {|
   t_sreq := pack_req_order; t_sresp := pack_resp_order;
   t_vreq := sigver_req_order; t_vresp := sigver_resp_order;
   t_algs := signer_algs; t_allowed := sig_allowed_alg;
-  t_sign_tilde := pack_urlencode_tilde_safe; t_verify_tilde := sigver_urlencode_tilde_safe |}.
+  t_sign_tilde := pack_urlencode_tilde_safe; t_verify_tilde := sigver_urlencode_tilde_safe;
+  t_shared := get_signer_returns_shared_object |}.
 
 (* ---------------- the two percent-encoders ---------------- *)
 (* ts = true : urllib.parse.quote_plus of this Python (tilde is in the always-safe set) = Codec.quote_byte true
@@ -95,12 +98,23 @@ Definition init_shared (T : tables) : shared :=
 
 Definition or_key (a b : option keyid) : option keyid := match a with Some k => Some k | None => b end.
 
-(* RSACrypto(ckey).get_signer(alg, sigkey): the handle returned IS the shared object, named by its table key *)
-Definition get_signer (st : shared) (ckey : option keyid) (alg : str) (sigkey : option keyid) : shared * option str :=
+(* a signer handle: the table key of the SIGNER_ALGS entry it was made from, and the key it was made with.
+   t_shared T = true : the handle IS the shared object; its key is whatever the table holds when it is used.
+   t_shared T = false: the handle is a fresh object carrying its own key; the table is never written. *)
+Definition handle := (str * option keyid)%type.
+
+(* RSACrypto(ckey).get_signer(alg, sigkey) *)
+Definition get_signer (T : tables) (st : shared) (ckey : option keyid) (alg : str) (sigkey : option keyid)
+  : shared * option handle :=
   match sh_get st alg with
   | None => (st, None)
-  | Some _ => (sh_setkey st alg (or_key sigkey ckey), Some alg)
+  | Some _ => let k := or_key sigkey ckey in
+              ((if t_shared T then sh_setkey st alg k else st), Some (alg, k))
   end.
+
+(* self.key of a handle at the moment it is used *)
+Definition handle_key (T : tables) (o : signer_obj) (h : handle) : option keyid :=
+  if t_shared T then so_key o else snd h.
 
 Definition KeyError := s2l "KeyError".
 Definition AttributeError := s2l "AttributeError".
@@ -111,10 +125,10 @@ Definition Unsupported := s2l "Unsupported".
 Definition B64Error := s2l "Error".          (* binascii.Error *)
 
 (* RSASigner.sign(msg) through handle h: key_sign(key or self.key, msg, self.digest), key = None *)
-Definition signer_sign (st : shared) (h : str) (msg : str) : result sigval :=
-  match sh_get st h with
+Definition signer_sign (T : tables) (st : shared) (h : handle) (msg : str) : result sigval :=
+  match sh_get st (fst h) with
   | None => Err KeyError                       (* not reachable: a handle names an existing object *)
-  | Some o => match so_key o with
+  | Some o => match handle_key T o h with
               | Some k => Ok (rsa_sign k (so_digest o) msg)
               | None => Err AttributeError     (* None.sign *)
               end
@@ -126,7 +140,7 @@ Definition signer_sign (st : shared) (h : str) (msg : str) : result sigval :=
 Definition redirect_args (typ m rs : str) : list (str * str) :=
   (typ, m) :: (if is_nil rs then [] else [(K_RS, rs)]).
 
-Definition http_redirect_message (T : tables) (st : shared) (typ m rs sigalg : str) (signer : option str)
+Definition http_redirect_message (T : tables) (st : shared) (typ m rs sigalg : str) (signer : option handle)
   : result query :=
   let is_msg := str_eqb typ K_REQ || str_eqb typ K_RESP in
   if is_msg || str_eqb typ K_ART then
@@ -138,7 +152,7 @@ Definition http_redirect_message (T : tables) (st : shared) (typ m rs sigalg : s
           if is_msg then
             let order := if str_eqb typ K_REQ then t_sreq T else t_sresp T in
             let args' := args ++ [(K_ALG, sigalg)] in
-            do s <- signer_sign st h (urlencode_g (t_sign_tilde T) (ordered order args'));
+            do s <- signer_sign T st h (urlencode_g (t_sign_tilde T) (ordered order args'));
             Ok {| q_params := args'; q_sig := Some (SigOf s) |}
           else Err TypeError                    (* for k in None *)
         else Err AssertionError
@@ -152,7 +166,7 @@ Definition apply_binding_redirect (T : tables) (st : shared) (ckey : option keyi
   match (if sign then sigalg else None) with
   | Some alg =>
       if is_nil alg then (st, http_redirect_message T st typ m rs alg None)
-      else let '(st', h) := get_signer st ckey alg None in
+      else let '(st', h) := get_signer T st ckey alg None in
            (st', http_redirect_message T st' typ m rs alg h)
   | None => (st, http_redirect_message T st typ m rs (match sigalg with Some a => a | None => [] end) None)
   end.
@@ -169,7 +183,7 @@ Definition verify_redirect_signature (T : tables) (st : shared) (ckey : option k
   match lookup K_ALG (q_params q) with
   | None => (st, Err KeyError)          (* the except-branch formats saml_msg['SigAlg'] again: KeyError, not Unsupported *)
   | Some alg =>
-      let '(st', h) := get_signer st ckey alg sigkey in
+      let '(st', h) := get_signer T st ckey alg sigkey in
       match h with
       | None => (st', Ok None)          (* unknown algorithm: falls off the end, returns None *)
       | Some h =>
@@ -185,10 +199,10 @@ Definition verify_redirect_signature (T : tables) (st : shared) (ckey : option k
                   | SigJunk false => (st', Err B64Error)
                   | SigJunk true => (st', Ok (Some false))
                   | SigOf s =>
-                      match sh_get st' h with
+                      match sh_get st' (fst h) with
                       | None => (st', Err KeyError)
                       | Some o =>
-                          (st', Ok (Some (match or_key key (so_key o) with
+                          (st', Ok (Some (match or_key key (handle_key T o h) with
                                           | Some k => rsa_verify k (so_digest o) string s
                                           | None => false           (* None.verify -> swallowed -> False *)
                                           end)))
@@ -206,17 +220,17 @@ Definition verifies (r : shared * result (option bool)) : bool :=
 (* e : the key configured for the calling entity's RSACrypto (the entity is identified by it) *)
 Inductive op :=
 | OGet (e : option keyid) (alg : str)                                   (* e.sec.sec_backend.get_signer(alg) *)
-| OSign (e : option keyid) (typ m rs sigalg : str) (h : option str)     (* http_redirect_message(..., signer = a handle e holds) *)
+| OSign (e : option keyid) (typ m rs sigalg : str) (h : option handle)  (* http_redirect_message(..., signer = a handle e holds) *)
 | OVerify (e : option keyid) (q : query) (cert sigkey : option keyid).  (* verify_redirect_signature(q, e.sec.sec_backend, cert, sigkey) *)
 
 Inductive out :=
-| OutHandle (h : option str)
+| OutHandle (h : option handle)
 | OutSigned (r : result query)
 | OutVerified (r : result (option bool)).
 
 Definition step (T : tables) (st : shared) (o : op) : shared * out :=
   match o with
-  | OGet e alg => let '(st', h) := get_signer st e alg None in (st', OutHandle h)
+  | OGet e alg => let '(st', h) := get_signer T st e alg None in (st', OutHandle h)
   | OSign e typ m rs sigalg h => (st, OutSigned (http_redirect_message T st typ m rs sigalg h))
   | OVerify e q cert sigkey => let '(st', r) := verify_redirect_signature T st e q cert sigkey in (st', OutVerified r)
   end.
@@ -319,21 +333,31 @@ Fixpoint find_query (alg : str) (qs : list query) : query :=
 Definition remember (x : out) (made : list query) : list query :=
   match x with OutSigned (Ok q) => q :: made | _ => made end.
 
-Fixpoint run_script (T : tables) (st : shared) (made : list query) (s : list sop) : list val :=
+(* the handle entity e holds for alg: the one returned by its latest get_signer(alg) *)
+Fixpoint held_handle (e : keyid) (alg : str) (held : list (keyid * str * option handle)) : option handle :=
+  match held with
+  | [] => None
+  | (e', a', h) :: r => if (e =? e') && str_eqb alg a' then h else held_handle e alg r
+  end.
+
+Fixpoint run_script (T : tables) (st : shared) (made : list query) (held : list (keyid * str * option handle))
+    (s : list sop) : list val :=
   match s with
   | [] => []
   | SGet e alg :: r =>
-      let '(st', x) := step T st (OGet (Some e) alg) in show_out x :: run_script T st' made r
+      let '(st', x) := step T st (OGet (Some e) alg) in
+      let h := match x with OutHandle h => h | _ => None end in
+      show_out x :: run_script T st' made ((e, alg, h) :: held) r
   | SSign e resp m rs alg :: r =>
-      let '(st', x) := step T st (OSign (Some e) (if resp then K_RESP else K_REQ) m rs alg (Some alg)) in
-      show_out x :: run_script T st' (remember x made) r
+      let '(st', x) := step T st (OSign (Some e) (if resp then K_RESP else K_REQ) m rs alg (held_handle e alg held)) in
+      show_out x :: run_script T st' (remember x made) held r
   | SApply e resp m rs alg :: r =>
       let '(st1, x1) := step T st (OGet (Some e) alg) in
       let h := match x1 with OutHandle h => h | _ => None end in
       let '(st2, x) := step T st1 (OSign (Some e) (if resp then K_RESP else K_REQ) m rs alg h) in
-      show_out x :: run_script T st2 (remember x made) r
+      show_out x :: run_script T st2 (remember x made) held r
   | SVerify e alg cert :: r =>
       let '(st', x) := step T st (OVerify (Some e) (find_query alg made) cert None) in
-      show_out x :: run_script T st' made r
+      show_out x :: run_script T st' made held r
   end.
-Definition show_script (T : tables) (s : list sop) : val := VL (run_script T (init_shared T) [] s).
+Definition show_script (T : tables) (s : list sop) : val := VL (run_script T (init_shared T) [] [] s).
